@@ -44,6 +44,19 @@ CLAIMED.update({
              note=_SCHED_NOTE, design_ref="DESIGN.md sec. 3 scheduler family"),
 })
 
+_DF_NOTE = ("Trusted: z3, symx proxies (each path replayed natively on the unpatched code), the stub pyarrow package used only to import "
+            "dask.dataframe, pandas label-slicing semantics of boundary_slice (checked on e2e witnesses).")
+CLAIMED.update({
+ "C44": dict(text="Bounded symbolic execution of RepartitionDivisions._layer with old/new divisions as sorted tuples of unbounded symbolic ints and a symbolic "
+                  "row index value: exactly-one routing into the partition the new divisions dictate, ordered concatenation, len(divisions)-1 outputs; "
+                  "RepartitionToFewer/ToMore partition-count arithmetic with symbolic counts. Tuple lengths are bounded (<=4-6).",
+             note=_DF_NOTE + " Outside: partition_size, freq, np.interp-based division interpolation.", design_ref="DESIGN.md sec. 3 C44"),
+ "C45": dict(text="Bounded symbolic execution of sorted_division_locations with symbolic npartitions/chunksize over every sorted sequence of length <=6-9 on a "
+                  "4-letter alphabet: strictly increasing locations 0..len, divisions equal the values at their locations, equal values never straddle a "
+                  "boundary, npartitions met exactly when enough distinct values exist. Quantile sketches are outside.",
+             note=_DF_NOTE, design_ref="DESIGN.md sec. 3 C45"),
+})
+
 NOT_APPLICABLE = {}
 
 _NA_DESIGN = {
